@@ -146,9 +146,10 @@ func (s *scheduler) release(k string) {
 	if !ok {
 		return
 	}
-	if s.heldBy[k] == w {
-		delete(s.heldBy, k)
-	}
+	// the application's lock is an ordinary mutex: Unlock releases it whoever calls (a request that unlocks an id it
+	// never locked — after a failed Lock, say — lets the next request in)
+	_ = w
+	delete(s.heldBy, k)
 }
 
 func (s *scheduler) finish(w int) {
@@ -273,7 +274,21 @@ func runConcurrent(in J) interface{} {
 	ws := newWorld(jmap(deepCopy(spec)), 0)
 	as := mkActor(ws)
 	var seqErrs []interface{}
-	for _, st := range steps {
+	lockFaultsOf := func() map[int]string {
+		m := map[int]string{}
+		for i, st := range steps {
+			if k, ok := jmap(st)["lockFault"].(string); ok {
+				m[i] = k
+			}
+		}
+		if len(m) == 0 {
+			return nil
+		}
+		return m
+	}
+	ws.lockFaults = lockFaultsOf()
+	for i, st := range steps {
+		ws.curReq = i
 		seqErrs = append(seqErrs, errClassPub(runOneRequest(ws, as, jmap(st))))
 	}
 	seqCols := collectionsOf(ws)
@@ -282,6 +297,7 @@ func runConcurrent(in J) interface{} {
 	wc := newWorld(jmap(deepCopy(spec)), 0)
 	sch := newScheduler(newRng(uint64(intOf(in["schedSeed"], 1))), len(steps))
 	wc.sched = sch
+	wc.lockFaults = lockFaultsOf()
 	ac := mkActor(wc)
 	conErrs := make([]interface{}, len(steps))
 	var wg sync.WaitGroup
@@ -357,7 +373,7 @@ func genConcurrent(r *rng, thorough bool, args []string, yield func(in J)) {
 		mk := func(entry, path string, a J) J {
 			return step(entry, "POST", "application/activity+json", path, a)
 		}
-		switch i % 6 {
+		switch i % 7 {
 		case 0: // duplicate POSTs of one activity to one inbox
 			a := J{"type": "Like", "id": remote("/activities/dup"), "actor": bob, "object": local("/notes/1"), "to": alice}
 			for j := 0; j < k; j++ {
@@ -390,13 +406,25 @@ func genConcurrent(r *rng, thorough bool, args []string, yield func(in J)) {
 				}
 				reqs = append(reqs, mk("postInbox", "/users/alice/inbox", J{"type": "Add", "id": remote(fmt.Sprintf("/activities/a%d", j)), "actor": bob, "object": remote(fmt.Sprintf("/notes/add%d", j)), "target": tg, "to": alice}))
 			}
+		case 6: // three requests on one inbox, the middle one's Lock of the inbox fails (and takes nothing)
+			for j := 0; j < 3; j++ {
+				id := remote("/activities/dupf")
+				if i%14 >= 7 {
+					id = remote(fmt.Sprintf("/activities/lf%d", j))
+				}
+				st := mk("postInbox", "/users/alice/inbox", J{"type": "Like", "id": id, "actor": bob, "object": local("/notes/1"), "to": alice})
+				if j == 1 {
+					st["lockFault"] = aliceInbox
+				}
+				reqs = append(reqs, st)
+			}
 		default: // client POSTs to one outbox
 			for j := 0; j < k; j++ {
 				reqs = append(reqs, mk("postOutbox", "/users/alice/outbox", J{"type": "Like", "actor": alice, "object": remote(fmt.Sprintf("/notes/o%d", j)), "to": bob}))
 			}
 		}
 		for s := 0; s < scheds; s++ {
-			yield(J{"world": w, "requests": reqs, "schedSeed": 1 + r.intn(1000000), "family": i % 6})
+			yield(J{"world": w, "requests": reqs, "schedSeed": 1 + r.intn(1000000), "family": i % 7})
 		}
 	}
 }
